@@ -53,6 +53,10 @@ func main() {
 		code := runReplay(os.Args[2])
 		cleanupAll()
 		os.Exit(code)
+	case "C13":
+		code := runC13(tierArg())
+		cleanupAll()
+		os.Exit(code)
 	case "C19":
 		code := runC19(tierArg())
 		cleanupAll()
